@@ -17,8 +17,9 @@ itself fails on the input it is reported as a failing input of C01.
 
 Not modelled (counted as `not_modelled`, never compared): types containing REAL (finding F40), open types / ANY.
 The regions of the known XER findings need no skipping here because the model reproduces them
-(F30 trailing newline not consumed, F56 explicit DEFAULT written in CXER, F59 white space next to <true/>,
-F76 SET / SEQUENCE treat an absent DEFAULT differently).
+(F30 trailing newline not consumed, F59 white space next to <true/>, F76 SET / SEQUENCE treat an absent DEFAULT
+differently in BASIC-XER).  Finding F56 is repaired: CANONICAL-XER does not encode a component that holds its DEFAULT
+value, stored or absent (SEQUENCE and SET; the fixed module carries values with explicitly stored defaults).
 """
 import collections, re
 from . import build, genmod, bundle, sexp
@@ -127,7 +128,10 @@ def fixed_module(rng, quick=True):
     add("XSeq", _sq("SEQUENCE", [("a", I), ("b", B, "OPTIONAL"), ("c", O), ("d", T("BIT STRING")), ("e", E), ("n", N), ("u", U),
                                  ("i", I, ("DEFAULT", "5", 5)), ("t", B, ("DEFAULT", "TRUE", True)), ("z", I, ("DEFAULT", "0", 0))]),
         [{"a": -5, "c": b"\x01\x02", "d": (b"\xa0", 4), "e": 1, "n": None, "u": "a<&\x00>\tb"},
-         {"a": 1, "b": False, "c": rb(20), "d": bits(70), "e": 0, "n": None, "u": "", "i": 6, "t": False, "z": 1}])
+         {"a": 1, "b": False, "c": rb(20), "d": bits(70), "e": 0, "n": None, "u": "", "i": 6, "t": False, "z": 1},
+         # DEFAULT values stored explicitly (CANONICAL-XER omits them, BASIC-XER writes them)
+         {"a": 2, "c": b"", "d": (b"", 0), "e": 2, "n": None, "u": "x", "i": 5, "t": True, "z": 0},
+         {"a": 3, "c": b"", "d": (b"", 0), "e": 2, "n": None, "u": "x", "i": 5, "t": False}])
     add("XSeqO", _sq("SEQUENCE", [("a", I, "OPTIONAL"), ("b", I, "OPTIONAL"), ("c", I), ("d", I, "OPTIONAL"), ("e", I, "OPTIONAL")]),
         [{"c": 1}, {"a": 1, "c": 2}, {"b": 1, "c": 2, "e": 3}, {"a": 1, "b": 2, "c": 3, "d": 4, "e": 5}, {"c": 1, "d": 2}])
     add("XSeqE", _sq("SEQUENCE", [("a", I), ("x", B), ("y", U, "OPTIONAL")], ext=1), [{"a": 1}, {"a": 1, "x": True}, {"a": 1, "y": "s"}, {"a": 1, "x": False, "y": ""}])
@@ -145,7 +149,9 @@ def fixed_module(rng, quick=True):
         [{"b": 1, "a": True}, {"b": 2, "a": False, "c": "x"}])
     add("XSetD", _sq("SET", [("i", dict(I, tag=(C, 3, "")), ("DEFAULT", "0", 0)), ("j", dict(I, tag=(C, 2, "")), ("DEFAULT", "7", 7)),
                              ("e", dict(E, tag=(C, 1, "")), ("DEFAULT", "red", 0)), ("k", dict(B, tag=(C, 0, "")))]),
-        [{"k": True}, {"i": 1, "j": 8, "e": 2, "k": False}])
+        [{"k": True}, {"i": 1, "j": 8, "e": 2, "k": False}, {"i": 0, "j": 7, "e": 0, "k": True}, {"j": 7, "e": 1, "k": False}])
+    add("XSeqED", _sq("SEQUENCE", [("a", I), ("x", I, ("DEFAULT", "9", 9)), ("y", B, ("DEFAULT", "FALSE", False))], ext=1),
+        [{"a": 1}, {"a": 1, "x": 9}, {"a": 1, "x": 9, "y": False}, {"a": 1, "x": 8, "y": True}])
     add("XSetE", _sq("SET", [("a", dict(I, tag=(C, 5, ""))), ("x", dict(B, tag=(C, 1, "")))], ext=1), [{"a": 1}, {"a": 1, "x": True}])
     # --- CHOICE: nested, extensible
     add("XChE", _ch([("a", I), ("b", T("REF", name="XCh")), ("c", N)], ext=2), [("a", 1), ("b", ("q", None)), ("b", ("s", "t")), ("c", None)])
